@@ -346,6 +346,13 @@ func runCheckOpts(opts *CheckOpts) int {
 				rf["replay"] = map[string]interface{}{"status": fmt.Sprintf("not attempted: replay budget of %d per run used up", maxReplays)}
 			} else if len(r.Model) > 0 && !o.noReplay {
 				replays++
+				// solvers like huge witnesses; a counterexample with short slices, when one
+				// exists, is the one that can be built and run against the real code
+				if small := smallModel(solver, o); small != nil {
+					r.Model = small.Model
+					rf["model"] = small.Model
+					rf["solver_output"] = truncate(small.Raw, 4000)
+				}
 				confirmed, detail := replayModel(prog, o, r, rp)
 				rf["replay"] = detail
 				if confirmed {
